@@ -53,6 +53,32 @@ PROPS = {
                     "create_function_definition/call_trivia produce one space exactly for the option values that name the case.",
         not_decided=["format_function_args / format_call (call-parentheses insertion/removal incl. the `obscure` exception): unit args, when present"],
         assumptions=[]),
+    "C13": dict(units=["cli_io", "diff"], bounded=[dict(kind="cli", scenario="check_never_writes")],
+        explanation="format_file (real text): the fs::write call carries the precondition may_write(check=false, data = format_code output of the text read from that path, data != that text); "
+                    "Verus proves the call unreachable in check mode. In check mode the result is Diff exactly when the formatted text differs (create_diff returns None iff the texts are equal, "
+                    "for every output format; JSON arm proved in unit diff).",
+        not_decided=["exit status (0/1/2) and `a diff is printed for precisely the differing files`: computed in the 300-line format() with threads, channels and the logger side effect on EXIT_CODE; "
+                     "no function boundary carries it. The CLI witness scenarios (bounded) exercise it in the thorough tier only",
+                     "output_diff / output_diff_unified (inside `similar`): None-iff-equal assumed"],
+        assumptions=["fs::read_to_string / fs::write / format_code are seen through wrappers that drop the .with_context decoration (DESIGN §3 rule 7)"]),
+    "C14": dict(units=["cli_io", "lib"], bounded=[dict(kind="cli", scenario="write_only_formatted_text")],
+        explanation="format_file: the only write is the complete formatted text of what was read, only if it differs, and it comes after every `?` exit (read error, parse error, --verify failure: "
+                    "format_code's Err leaves the function before the write). format_ast (unit lib): with verification on, Ok is returned only if the output re-parses and compares equal.",
+        not_decided=["`every other selected file is still formatted` and the exit status: inline in format() (threads, channel), not decided",
+                     "a worker panic (`formatting crashes`): catch_unwind/threadpool behaviour is outside every contract"],
+        assumptions=[]),
+    "C17": dict(units=["cli_io"], bounded=[dict(kind="cli", scenario="stdin_stdout_only")],
+        explanation="format_string (real text): the buffer handed to stdout is exactly the bytes of format_code's output for the input, or of the untouched input when should_skip; an error returns Err (no buffer); "
+                    "no file-system wrapper is called in this function at all (a call would be an unknown function to the unit).",
+        not_decided=["that nothing else is printed to stdout / the exit status on parse error: inline in format()", "should_skip is computed by the caller (path_is_stylua_ignored): not under contract"],
+        assumptions=[]),
+    "C18": dict(units=["diff", "cli_io"], bounded=[dict(kind="cli", scenario="json_diff_reconstructs"), dict(kind="cli", scenario="unified_diff_reconstructs")],
+        explanation="output_diff_json (real text, two nested loops with invariants): None iff the texts are equal; every mismatch carries the 0-based inclusive line ranges of its similar::DiffOp, "
+                    "computed without underflow. create_diff: None iff equal for all four formats; Summary prints the file name iff the texts differ.",
+        not_decided=["the unified / standard diff text is produced inside `similar` (assumed); that patch(1) applied to it reconstructs the file is only exercised by the bounded CLI scenario in the thorough tier",
+                     "JSON content clause: the `expected` text of an Insert op records only the first inserted line; a formatter-reachable (original, formatted) pair with a pure multi-line insertion was not found "
+                     "(every line the formatter adds comes from splitting a line that thereby changes => Replace op), so the clause is restricted to ranges (DESIGN §6.4)"],
+        assumptions=["similar::TextDiff::grouped_ops(0): ops are non-empty and there is none iff the texts are equal (class B)"]),
     "C02": dict(units=["expr", "block", "lib", "tok"],
         explanation="expression spine: same obligations as C05 (operator tree, leaves, operators)",
         not_decided=["statement/block/args/token layers are decided in their own units (see runs)"],
@@ -104,7 +130,10 @@ LIB_WITNESSES = [
     w("-- stylua: ignore\nlocal t = {\n   1,\n      2 }\nlocal   x = 1\n", oracle="contains", contains="local t = {\n   1,\n      2 }\n", line_endings="Windows"),
     w("local s = [[a\nb]]\nlocal   x = 1 -- c\n", oracle="selfverify"),
 ]
+def cli(s): return dict(kind="cli", scenario=s)
 WITNESSES = {
+    "C14.": [cli("write_only_formatted_text"), cli("check_never_writes")], "C13.": [cli("check_never_writes")], "C17.": [cli("stdin_stdout_only")],
+    "C18.": [cli("json_diff_reconstructs"), cli("unified_diff_reconstructs"), cli("check_never_writes")],
     "C01.output_is_printed_ast": LIB_WITNESSES, "C01.verified": LIB_WITNESSES, "C12.sort_iff_enabled": LIB_WITNESSES, "C02.whole_ast": LIB_WITNESSES,
     "C08.": BLOCK_WITNESSES, "C09.": BLOCK_WITNESSES, "C01.semicolon": BLOCK_WITNESSES[-2:], "C01.next_starts": BLOCK_WITNESSES[-2:],
     "C05.": EXPR_WITNESSES,
@@ -117,10 +146,6 @@ NOT_APPLICABLE = {
     "C19": "a schedule property of std atomics and a thread pool; Kani has no threads and Verus needs its own permission-carrying atomics which the real code does not use (DESIGN.md §9)",
     "C07": "not claimed yet: aggregate of the per-function panic/termination obligations is under construction",
     "C12": "not claimed yet: unit sort under construction",
-    "C13": "not claimed yet: unit cli_io under construction",
-    "C14": "not claimed yet: unit cli_io under construction",
     "C15": "not claimed yet: unit config under construction",
-    "C17": "not claimed yet: unit cli_io under construction",
-    "C18": "not claimed yet: unit diff under construction",
     "C20": "not claimed yet: Kani harnesses for the option conversions under construction",
 }
